@@ -291,6 +291,7 @@ func (p *paymentSession) RequestRoute(maxAmt, feeLimit lnwire.MilliSatoshi,
 		PaymentAddr:           p.payment.PaymentAddr,
 		Amp:                   p.payment.amp,
 		Metadata:              p.payment.Metadata,
+		TotalAmt:              p.payment.Amount,
 		FirstHopCustomRecords: firstHopCustomRecords,
 	}
 
